@@ -613,6 +613,9 @@ class ModelDriver:
                 raise Skip("constraint exists")
             rxns = list(model.reactions)[:2]
             expr = sum((r.flux_expression for r in rxns), 0)
+            for vn in ("uv1", "uv2"):        # a user constraint over the user variables that exist, too
+                if vn in model.variables:
+                    expr = expr + 2 * model.variables[vn]
             c = model.problem.Constraint(expr, lb=-7 * self.scale, ub=9 * self.scale, name=op["name"])
             model.add_cons_vars([c])
             return None
